@@ -9,6 +9,75 @@ use pcv_core::run::*;
 use postcard_schema::schema::owned::OwnedDataModelType;
 use postcard_schema::Schema;
 
+// ---- candidate types: no Schema impl today, but a plausible future one; checked as soon as the impl exists
+struct Probe<T: ?Sized>(std::marker::PhantomData<T>);
+trait ViaNo {
+    fn declared(&self) -> Option<&'static postcard_schema::schema::DataModelType> {
+        None
+    }
+}
+impl<T: ?Sized> ViaNo for &Probe<T> {}
+trait ViaYes {
+    fn declared(&self) -> Option<&'static postcard_schema::schema::DataModelType>;
+}
+impl<T: Schema + ?Sized> ViaYes for Probe<T> {
+    fn declared(&self) -> Option<&'static postcard_schema::schema::DataModelType> {
+        Some(T::SCHEMA)
+    }
+}
+macro_rules! candidate {
+    ($t:expr, $ty:ty, [$($v:expr),* $(,)?]) => {{
+        let declared = (&Probe::<$ty>(std::marker::PhantomData)).declared();
+        $t.st.count("candidate_types_probed");
+        if let Some(sch) = declared {
+            $t.st.count("candidate_types_with_an_impl");
+            $t.st.count("types");
+            let schema: OwnedDataModelType = sch.into();
+            let vals: Vec<$ty> = vec![$($v),*];
+            for v in &vals {
+                if !check_value::<$ty>($t, stringify!($ty), v, &schema, false) {
+                    break;
+                }
+            }
+        }
+    }};
+}
+
+fn schema_candidates(t: &mut Tctx) {
+    use std::net::{IpAddr, Ipv4Addr, Ipv6Addr, SocketAddr, SocketAddrV4};
+    use std::ops::Bound;
+    use std::time::Duration;
+    candidate!(t, Bound<u32>, [Bound::Unbounded, Bound::Included(7), Bound::Excluded(u32::MAX)]);
+    candidate!(t, (Bound<u8>, Bound<String>), [(Bound::Unbounded, Bound::Included("x".to_string())), (Bound::Excluded(3), Bound::Unbounded), (Bound::Included(1), Bound::Excluded(String::new()))]);
+    candidate!(t, Duration, [Duration::ZERO, Duration::new(5, 999_999_999), Duration::MAX]);
+    candidate!(t, std::num::Wrapping<u32>, [std::num::Wrapping(9)]);
+    candidate!(t, std::cmp::Reverse<u16>, [std::cmp::Reverse(300)]);
+    candidate!(t, std::cell::Cell<u8>, [std::cell::Cell::new(200)]);
+    candidate!(t, std::cell::RefCell<String>, [std::cell::RefCell::new("käse".to_string())]);
+    candidate!(t, std::sync::Mutex<u8>, [std::sync::Mutex::new(3)]);
+    candidate!(t, std::sync::RwLock<u16>, [std::sync::RwLock::new(300)]);
+    candidate!(t, Ipv4Addr, [Ipv4Addr::new(127, 0, 0, 1)]);
+    candidate!(t, Ipv6Addr, [Ipv6Addr::LOCALHOST]);
+    candidate!(t, IpAddr, [IpAddr::V4(Ipv4Addr::new(10, 1, 2, 3)), IpAddr::V6(Ipv6Addr::LOCALHOST)]);
+    candidate!(t, SocketAddr, [SocketAddr::V4(SocketAddrV4::new(Ipv4Addr::new(10, 1, 2, 3), 8080))]);
+    candidate!(t, Box<u32>, [Box::new(70_000)]);
+    candidate!(t, Box<str>, ["abc".into()]);
+    candidate!(t, Box<[u16]>, [vec![1u16, 300].into_boxed_slice()]);
+    candidate!(t, std::rc::Rc<String>, [std::rc::Rc::new("x".to_string())]);
+    candidate!(t, std::sync::Arc<u8>, [std::sync::Arc::new(9)]);
+    candidate!(t, std::borrow::Cow<'static, str>, [std::borrow::Cow::Borrowed("käse"), std::borrow::Cow::Owned(String::new())]);
+    candidate!(t, std::collections::VecDeque<u16>, [vec![1u16, 300, 7].into_iter().collect()]);
+    candidate!(t, std::collections::LinkedList<u8>, [vec![1u8, 2].into_iter().collect()]);
+    candidate!(t, std::collections::BinaryHeap<u32>, [vec![5u32].into_iter().collect()]);
+    candidate!(t, std::ffi::CString, [std::ffi::CString::new("abc").unwrap()]);
+    candidate!(t, std::marker::PhantomData<u32>, [std::marker::PhantomData]);
+    candidate!(t, (u8, u16, u32, u64, i8, i16, i32), [(1, 300, 70_000, 1 << 40, -1, -300, -70_000)]);
+    candidate!(t, (u8, u8, u8, u8, u8, u8, u8, String), [(1, 2, 3, 4, 5, 6, 7, "x".to_string())]);
+    candidate!(t, std::num::Saturating<i16>, [std::num::Saturating(-5)]);
+    candidate!(t, std::sync::atomic::AtomicU32, [std::sync::atomic::AtomicU32::new(70_000)]);
+    candidate!(t, std::time::SystemTime, [std::time::UNIX_EPOCH, std::time::UNIX_EPOCH + Duration::new(1_700_000_000, 5)]);
+}
+
 pub fn run(cfg: &Cfg) -> Report {
     let mut rep = Report::new("C14");
     let s = parallel(cfg, 1, |t| {
@@ -85,6 +154,7 @@ pub fn run(cfg: &Cfg) -> Report {
         }
         if t.tid == 0 {
             t.st.add("types", 16);
+            schema_candidates(t);
         }
     });
     rep.stats.merge(s);
